@@ -23,8 +23,8 @@ from ref.models_sync import ConditionModel, EventModel, PENDING, OK, WOKEN, EITH
 
 ID = "C34"
 LEVEL = "exploration"
-QUICK_N = 48000
-THOROUGH_N = 1200000
+QUICK_N = 40000
+THOROUGH_N = 1600000
 CHUNK = 500
 RULE = ("gen(seed): object kind (Condition | Event), 3..24 ops (wait [abs deadline | timedelta | "
         "zero | past], notify(n in 0..4), notify_all / set, clear), a gap before every op (same "
@@ -118,22 +118,6 @@ def validate(scn):
         return False
 
 
-def _permuter(p):
-    if not p:
-        return None
-
-    def permute(items):
-        n = len(items)
-        if n < 2:
-            return items
-        r = p % n
-        out = items[r:] + items[:r]
-        if p & 64:
-            out.reverse()
-        return out
-    return permute
-
-
 def run(scn, full_log=False):
     from tornado import locks, _verif
 
@@ -143,7 +127,7 @@ def run(scn, full_log=False):
     outcome = {}
 
     with SimEnv(scn.get("tapes"), max_iters=20000, full_log=full_log) as env:
-        _verif.OrderedSet.permute = _permuter(scn.get("permute", 0))
+        _verif.OrderedSet.permute = R.permuter(scn.get("permute", 0))
         model = ConditionModel() if kind == "cond" else EventModel()
         rig = R.Rig(env, model, kind, viol, probes)
         bad, probe = rig.bad, rig.probe
